@@ -9,8 +9,10 @@ SOFT = 40
 HARD = 240
 RULE = ("case = (grammar, closed tree T with explicit node ids, cut set, constraint, completions); P = T with the chosen "
         "subtrees cut back to open leaves (all surviving nodes keep their ids); completions = T itself plus 5 trees "
-        "obtained by filling P's open leaves with harness-generated subtrees; constraint from the C03 generator without "
-        "numeric quantifiers, biased towards quantifiers over types reachable from an open leaf; oracle: if "
+        "obtained by filling P's open leaves with harness-generated subtrees; constraint from the C03 generator (numeric "
+        "quantifiers in 20% of the cases), biased towards quantifiers over types reachable from an open leaf, plus templates: match-expression "
+        "instance cut inside the matched region, nth after an open leaf, witness in the closed part, count of a recursive needle on a prefix "
+        "whose open leaves carry the needle's label; oracle: if "
         "evaluate(constraint, P) is TRUE or FALSE then the reference semantics gives every completion the same verdict "
         "(UNKNOWN is always allowed; an exception is recorded as inconclusive); non-trivial = P has an open leaf, the verdict is definite "
         "and the constraint quantifies over a type reachable from an open leaf; distinct by case hash")
